@@ -73,7 +73,11 @@ def direct(ctx, entries=None, count=False):
                 B = 5
                 x = R.make_inputs(e, B, gen, torch.float64, inverse)
                 c = R.make_context(e, B, gen, torch.float64)
-                k, y, ld = R.impl_call(t, x, c, inverse)
+                if e.extra.get('train'):
+                    continue
+                import copy
+                # every evaluation on its own deep copy: in evaluation mode the state may not change, so copies are equivalent
+                k, y, ld = R.impl_call(copy.deepcopy(t), x, c, inverse)
                 if k != 'ok':
                     continue
                 if count:
@@ -81,13 +85,13 @@ def direct(ctx, entries=None, count=False):
                 cls = e.name.split('/')[0]
                 tol = dict(rtol=1e-7, atol=1e-9) if 'UMNN' not in e.name else dict(rtol=1e-3, atol=1e-4)
                 for i in (0, B - 1):
-                    k1, y1, l1 = R.impl_call(t, x[i:i + 1], c[i:i + 1] if c is not None else None, inverse)
+                    k1, y1, l1 = R.impl_call(copy.deepcopy(t), x[i:i + 1], c[i:i + 1] if c is not None else None, inverse)
                     if k1 != 'ok' or not torch.allclose(y1, y[i:i + 1], **tol) or not torch.allclose(l1, ld[i:i + 1], **tol):
                         ctx.fail('row %d of the batch result differs from evaluating the row alone' % i, {'entry': e.name, 'inverse': inverse, 'x': x.reshape(-1).tolist()[:12]},
                                  match={'class': cls, 'symptom': 'row-dependence'})
                         break
                 perm = torch.randperm(B, generator=gen)
-                kp, yp, lp = R.impl_call(t, x[perm], c[perm] if c is not None else None, inverse)
+                kp, yp, lp = R.impl_call(copy.deepcopy(t), x[perm], c[perm] if c is not None else None, inverse)
                 if kp != 'ok' or not torch.allclose(yp, y[perm], **tol) or not torch.allclose(lp, ld[perm], **tol):
                     ctx.fail('not equivariant under a batch permutation', {'entry': e.name, 'inverse': inverse}, match={'class': cls, 'symptom': 'perm'})
         except Exception as ex:
